@@ -557,7 +557,7 @@ theorem invoke_skipped_nil_iff (env : Env) (r : Rule) : invoke env r = .skipped 
   cases ha : r.act with
   | ret c key kwargs => simp [ofMk_ne_skipped]
   | retNone => simp [ofMk_ne_skipped]
-  | retOther => simp
+  | retOther b => simp
   | raise e => cases e <;> simp
 
 theorem process_ignored (env : Env) (present : List Comp) (r : Rule) (h : ignored present r = true) :
@@ -661,7 +661,7 @@ theorem invoke_not_skipEntry (env : Env) (r : Rule) (hc : WFCfg env.cfg)
     rw [mkResp_of_valid env.limit env.cfg.noneCls sNoneT _ [] hc.none_type (none_valid env.cfg hc)]
     simp only [ofMk, finalOfProc]
     exact observeKind_built_not_skip _ _ _ _ _ (by simp [hasKey]) (by decide) resp
-  | retOther => simp [finalOfProc]
+  | retOther b => simp [finalOfProc]
   | raise e => cases e <;> simp [finalOfProc] <;> split <;> simp
 
 theorem observeKind_built_mdk (limit : Nat) (c : RClass) (kn k : Str) (v : PyVal)
@@ -814,6 +814,132 @@ theorem lookup_getResponse (st : St) (h : Str) (hnd : (keysOf st.results).Nodup)
       = st.results.foldl addTyped r1 := fun _ => rfl
   rw [this, lookup_foldl_addTyped _ _ _ hnd]
   simp only [lookup_setKey]
+
+
+/-! ### histories of one evaluator object -/
+
+theorem addObserver_of_mem (o : ObsId) (l : List ObsId) (h : o ∈ l) : addObserver o l = l := by
+  have hc : l.contains o = true := by simpa using h
+  simp only [addObserver, hc, if_true]
+
+theorem addObserver_of_not_mem (o : ObsId) (l : List ObsId) (h : o ∉ l) : addObserver o l = l ++ [o] := by
+  have hc : l.contains o = false := by simpa using h
+  simp only [addObserver, hc, Bool.false_eq_true, if_false]
+
+theorem addObserver_mem (o : ObsId) (l : List ObsId) : o ∈ addObserver o l := by
+  by_cases h : o ∈ l
+  · rw [addObserver_of_mem o l h]; exact h
+  · rw [addObserver_of_not_mem o l h]; simp
+
+theorem addObserver_idem (o : ObsId) (l : List ObsId) : addObserver o (addObserver o l) = addObserver o l :=
+  addObserver_of_mem o _ (addObserver_mem o l)
+
+theorem addObserver_mem_of_mem (o o' : ObsId) (l : List ObsId) (h : o' ∈ l) : o' ∈ addObserver o l := by
+  by_cases ho : o ∈ l
+  · rw [addObserver_of_mem o l ho]; exact h
+  · rw [addObserver_of_not_mem o l ho]; simp [h]
+
+theorem addObserver_nodup (o : ObsId) (l : List ObsId) (h : l.Nodup) : (addObserver o l).Nodup := by
+  by_cases hn : o ∈ l
+  · rw [addObserver_of_mem o l hn]; exact h
+  · rw [addObserver_of_not_mem o l hn]
+    exact List.nodup_append.mpr ⟨h, by simp, by intro a ha b hb; simp at hb; subst hb; intro e; exact hn (e ▸ ha)⟩
+
+theorem count_of_nodup_mem (l : List ObsId) (o : ObsId) (hnd : l.Nodup) (hm : o ∈ l) : l.count o = 1 := by
+  induction l with
+  | nil => cases hm
+  | cons a rest ih =>
+    simp only [List.nodup_cons] at hnd
+    by_cases ha : a = o
+    · subst ha
+      have : List.count a rest = 0 := List.count_eq_zero.mpr hnd.1
+      simp [List.count_cons, this]
+    · have hm' : o ∈ rest := by
+        rcases List.mem_cons.mp hm with h | h
+        · exact absurd h.symm ha
+        · exact h
+      simp [List.count_cons, ha, ih hnd.2 hm']
+
+theorem addObserver_count (o : ObsId) (l : List ObsId) (h : l.Nodup) : (addObserver o l).count o = 1 :=
+  count_of_nodup_mem _ _ (addObserver_nodup o l h) (addObserver_mem o l)
+
+theorem dispatch_absent (l : List ObsId) (st : St) (r : Rule) (h : evalObs ∉ l) : dispatch l st r = st := by
+  unfold dispatch
+  induction l generalizing st with
+  | nil => rfl
+  | cons o rest ih =>
+    simp only [List.mem_cons, not_or] at h
+    simp only [List.foldl_cons, Ne.symm h.1, if_false]
+    exact ih st h.2
+
+theorem dispatch_once (l : List ObsId) (st : St) (r : Rule) (hnd : l.Nodup) (hm : evalObs ∈ l) :
+    dispatch l st r = observe st r := by
+  induction l generalizing st with
+  | nil => cases hm
+  | cons o rest ih =>
+    simp only [List.nodup_cons] at hnd
+    by_cases ho : o = evalObs
+    · subst ho
+      have := dispatch_absent rest (observe st r) r hnd.1
+      unfold dispatch at this ⊢
+      simp only [List.foldl_cons, if_true]
+      exact this
+    · have hm' : evalObs ∈ rest := by
+        rcases List.mem_cons.mp hm with h | h
+        · exact absurd h.symm ho
+        · exact h
+      have := ih st hnd.2 hm'
+      unfold dispatch at this ⊢
+      simp only [List.foldl_cons, ho, if_false]
+      exact this
+
+/-- what one fired element does to an evaluator whose observer is registered (once) -/
+def stepG (env : Env) (st : St) (f : Fired) : St := observe (engineStep env f.2 st f.1) f.1
+
+theorem step_eq_stepG (env : Env) (st : St) (r : Rule) : step env st r = stepG env st (r, true) := by
+  simp [step, stepG, engineStep]
+
+/-- the run orders of a history, concatenated -/
+def allFired : List Op → List Fired
+  | [] => []
+  | .register _ :: ops => allFired ops
+  | .run fired :: ops => fired ++ allFired ops
+
+theorem foldl_stepH (env : Env) (fired : List Fired) (h : HSt) (hnd : h.observers.Nodup) (hm : evalObs ∈ h.observers) :
+    (fired.foldl (stepH env) h).st = fired.foldl (stepG env) h.st ∧
+    (fired.foldl (stepH env) h).observers = h.observers := by
+  induction fired generalizing h with
+  | nil => exact ⟨rfl, rfl⟩
+  | cons f rest ih =>
+    simp only [List.foldl_cons]
+    have h1 : (stepH env h f).observers = h.observers := rfl
+    have h2 : (stepH env h f).st = stepG env h.st f := by
+      simp only [stepH, stepG]
+      exact dispatch_once _ _ _ hnd hm
+    obtain ⟨a, b⟩ := ih (stepH env h f) (by rw [h1]; exact hnd) (by rw [h1]; exact hm)
+    rw [a, b, h1, h2]
+    exact ⟨rfl, rfl⟩
+
+theorem foldl_applyOp (env : Env) (ops : List Op) (h : HSt) (hnd : h.observers.Nodup) (hm : evalObs ∈ h.observers) :
+    (ops.foldl (applyOp env) h).st = (allFired ops).foldl (stepG env) h.st := by
+  induction ops generalizing h with
+  | nil => rfl
+  | cons op rest ih =>
+    simp only [List.foldl_cons]
+    cases op with
+    | register o =>
+      simp only [applyOp, allFired]
+      exact ih _ (addObserver_nodup o _ hnd) (addObserver_mem_of_mem o _ _ hm)
+    | run fired =>
+      simp only [applyOp, allFired, List.foldl_append]
+      obtain ⟨a, b⟩ := foldl_stepH env fired h hnd hm
+      rw [ih _ (by rw [b]; exact hnd) (by rw [b]; exact hm), a]
+
+theorem foldl_stepG_all_in_graph (env : Env) (rules : List Rule) (st : St) :
+    (rules.map (·, true)).foldl (stepG env) st = rules.foldl (step env) st := by
+  induction rules generalizing st with
+  | nil => rfl
+  | cons r rest ih => simp only [List.map_cons, List.foldl_cons, ← step_eq_stepG, ih]
 
 
 end IV.Rules
